@@ -8,7 +8,7 @@ From LJT Require Import model.Huff gen.GenNbits gen.GenStdHuff proofs.NbitsProof
   gen.GenHuffGen proofs.HuffGenConst
   model.HuffSym gen.GenHuffSym proofs.HuffSymProofs proofs.HuffBridgeProofs.
 From LJT Require model.T81Spec proofs.T81BlockProofs proofs.T81HuffProofs.
-From LJT Require Import model.HuffSel gen.GenHuffSel proofs.HuffSelFacts.
+From LJT Require Import model.HuffSel gen.GenHuffSel proofs.HuffSelFacts proofs.HuffLookProofs.
 Import ListNotations.
 Local Open Scope Z_scope.
 
@@ -370,3 +370,27 @@ Theorem C19_source_table_selection :
   gen_genopt_static_locals = 0%nat.
 Proof. exact source_table_selection. Qed.
 Print Assumptions C19_source_table_selection.
+
+(* ---- contents of the HUFF_LOOKAHEAD = 8 table (what HUFF_DECODE's fast path and the
+   fast-path models of C01/C09 rely on): for every accepted table and each of the
+   256 eight-bit patterns p, the entry is (n << 8) | sym with n <= 8 exactly when the
+   n-bit code word of a table entry is a prefix of p (sym = that entry's symbol, and
+   the entry is unique), and (HUFF_LOOKAHEAD + 1) << 8 exactly when no code word of
+   length <= 8 is a prefix of p *)
+Theorem C19_lookahead_table_characterisation : forall bits vals isDC maxdc dt,
+  length bits = 17%nat ->
+  make_d_derived bits vals isDC maxdc = Some dt ->
+  (forall k, (k < length vals)%nat -> 0 <= nth k vals 0 <= 255) ->
+  exists sizes codes,
+    huffsizes (skipn 1 (firstn 17 bits)) 1 0 = Some sizes /\ gen_codes sizes = Some codes /\
+    forall p, 0 <= p < 256 ->
+      let e := nthZ (lookup dt) (Z.to_nat p) in
+      let hit k := (k < length sizes)%nat /\ (k < length vals)%nat /\
+                   prefix_of8 (nth k codes 0) (nth k sizes 0) p in
+      (forall k, hit k -> e = nth k sizes 0 * 256 + nth k vals 0 /\
+                          e / 256 = nth k sizes 0 /\ e mod 256 = nth k vals 0) /\
+      ((forall k, ~ hit k) -> e = (HUFF_LOOKAHEAD + 1) * 256 /\ e / 256 = HUFF_LOOKAHEAD + 1) /\
+      (e / 256 <= HUFF_LOOKAHEAD <-> exists k, hit k) /\
+      (forall j k, hit j -> hit k -> j = k).
+Proof. exact lookahead_table_characterisation. Qed.
+Print Assumptions C19_lookahead_table_characterisation.
